@@ -16,13 +16,15 @@ LEVEL_TEXT = ("Proof + correspondence: Coq theorems for every advance sequence /
 LEVEL_NOTE = ("Trusted: Coq kernel, hand model of the header arithmetic (correspondence-tested), harness; per-glyph boxes are taken "
               "from the compiled glyph data (glyf fields / charstring bounds).")
 TECHNIQUE = "Coq proofs (hmtx round trip, minimal long-metric count, extrema) + vm_compute check of the returned and reloaded header fields"
-IMPORTS = "From U2F Require Import Base.Prelude Metrics.Hmtx."
+IMPORTS = "From U2F Require Import Base.Prelude Metrics.Hmtx Metrics.Vorg."
 RULE = ("random fonts whose advance sequences are drawn from {all equal, equal tail, strictly descending, single glyph, zeros, "
         "random}, with empty glyphs first/last, component-only glyphs, vertical metrics on/off, post format 2/3, TTF and OTF; "
         "thorough adds every advance sequence of length <= 6 over 3 values. Non-trivial = the long-metric count is strictly "
         "between 1 and the glyph count, or a glyph is empty.")
 ASSUMPTIONS = ["fontTools (de)serialisation is deterministic"]
 
+FN_VORG = ("fun c : ((Z * list (str * (option Z * (option Z * Z)))) * (list (str * Z) * Z)) => "
+           "c04_vorg (fst (fst c)) (snd (fst c)) (fst (snd c)) (snd (snd c))")
 FN = ("fun c : (list gmetric * hhea * box) => let '(l, h, b) := c in if c04_check l h b then 3 else 0")
 
 
@@ -118,6 +120,7 @@ def explore(ctx):
         jobs += seqs[: 400 * ctx.scale]
         ctx.notes["advance_sequence_sweep"] = min(len(seqs), 400 * ctx.scale)
     cases, meta = [], []
+    vcases, vmeta = [], []
     for i, widths in enumerate(jobs):
         desc = make_font(rng, widths)
         flavor = ["ttf", "otf"][i % 2]
@@ -132,6 +135,13 @@ def explore(ctx):
             info = {"openTypeVheaVertTypoAscender": 500, "openTypeVheaVertTypoDescender": -500, "openTypeVheaVertTypoLineGap": 0}
             for g in desc["glyphs"]:
                 g["height"] = Fr(rng.choice([1000, 1000, 800]))
+            if rng.random() < 0.7:
+                # explicit vertical origins (public.verticalOrigin) on some glyphs, the rest fall back to sTypoAscender
+                pool = rng.choice([[880, 880, 880, None], [880, 800, None, None], [750.5, 880, None], [880, 880, 700, 800, None]])
+                for g in desc["glyphs"]:
+                    v = rng.choice(pool)
+                    if v is not None:
+                        g["lib"] = {"public.verticalOrigin": v}
         desc["info"] = info
         kw = {"useProductionNames": False}
         case = {"font": jsonable(desc), "flavor": flavor, "lib": lib, "vertical": vertical}
@@ -191,6 +201,27 @@ def explore(ctx):
             if any(val == v.defaultVertOriginY for val in v.VOriginRecords.values()) or \
                     counts[v.defaultVertOriginY] < max(counts.values()):
                 ctx.spec_failure(case, "VORG default %r is not a most frequent origin: %r" % (v.defaultVertOriginY, dict(counts)))
+        if "VORG" in tt3:
+            from fontTools.misc.roundTools import otRound
+            v = tt3["VORG"]
+            by = {g["name"]: g for g in desc["glyphs"]}
+            boxes = {m[0]: m[3] for m in ms}
+            gl = []
+            # counting order of setupTable_VORG = iteration order of the compiler's glyph set: the source glyphs,
+            # then the generated .notdef (decides the default only when two origins are equally frequent)
+            src = [g["name"] for g in desc["glyphs"]]
+            count_order = [n for n in src if n in boxes] + [n for n in tt3.getGlyphOrder() if n not in src]
+            for n in count_order:
+                ex = by.get(n, {}).get("lib", {}).get("public.verticalOrigin")
+                ymax = boxes[n][3] if boxes.get(n) else None
+                gl.append(G.tup(G.s(n), G.tup("(Some %s)" % G.z(otRound(ex)) if ex is not None else "(@None Z)",
+                                            G.tup("(Some %s)" % G.z(ymax) if ymax is not None else "(@None Z)",
+                                                  G.z(tt3["vmtx"][n][1])))))
+            recs = [G.tup(G.s(n), G.z(v.VOriginRecords[n])) for n in count_order if n in v.VOriginRecords]
+            vcases.append(G.tup(G.tup(G.z(tt3["OS/2"].sTypoAscender), G.lst(gl, "(str * (option Z * (option Z * Z)))")),
+                                G.tup(G.lst(recs, "(str * Z)"), G.z(v.defaultVertOriginY))))
+            vmeta.append(dict(case, level="VORG / vmtx", vorg={"default": v.defaultVertOriginY, "records": dict(v.VOriginRecords)}))
+            ctx.klass("VORG:%d records" % min(len(recs), 3))
         if vertical and "vhea" in tt3:
             vh, vm = tt3["vhea"], tt3["vmtx"]
             hs = [vm[n][0] for n in tt3.getGlyphOrder()]
@@ -203,5 +234,14 @@ def explore(ctx):
         if v != 3:
             ctx.spec_failure(case, "c04_check (Coq) false: hhea extrema / long-metric count / head box / side bearings / hmtx "
                                    "round trip inconsistent with the glyph data (%s)" % case["level"])
+    vals = ctx.coq_eval(IMPORTS, FN_VORG, vcases, chunk=60, tag="Vorg")
+    for v, case in zip(vals, vmeta):
+        if v is None:
+            continue
+        if not v & 2:
+            ctx.spec_failure(case, "VORG/vmtx disagree with the glyph data: some glyph's origin read from VORG is not its "
+                                   "public.verticalOrigin / sTypoAscender, a record repeats the default, or tsb != origin - yMax")
+        elif not v & 1:
+            ctx.corr_mismatch(case, "Gallina vorg_records/vorg_default differ from the compiled VORG table")
     if meta:
         ctx.sample({"advances": meta[0]["advances"], "flavor": meta[0]["flavor"], "level": meta[0]["level"]})
